@@ -1,0 +1,24 @@
+//go:build verif
+
+package logic
+
+// What of an input's content has reached a group, for the admission checks
+// (property C03).  Nothing here is compiled without -tags verif.
+
+// VerifRawSdp returns the raw SDP the group of streamName currently holds (what
+// an RTSP DESCRIBE of that stream is answered with); ok is false when there is
+// no such group or it holds none.
+func (sm *ServerManager) VerifRawSdp(streamName string) (raw []byte, ok bool) {
+	sm.mutex.Lock()
+	defer sm.mutex.Unlock()
+	g := sm.getGroup("", streamName)
+	if g == nil {
+		return nil, false
+	}
+	g.mutex.Lock()
+	defer g.mutex.Unlock()
+	if g.sdpCtx == nil {
+		return nil, false
+	}
+	return append([]byte(nil), g.sdpCtx.RawSdp...), true
+}
